@@ -75,7 +75,7 @@ func c09Stress(w *core.Worker, i int) {
 	profiles := []string{"", "lock.checked=2,rlock.lock_created=1", "lock.created=1,commit.removed=2,rlock.checked=1", "hold.x.begin=3,rlock.rlock_created=2,cf.closed=1"}
 	delay := profiles[r.Intn(len(profiles))]
 	nclients, per := 12, 14
-	var stracedOps int64
+	var stracedOps, killedOutside int64
 	var mu sync.Mutex
 	var ops []c09Op
 	var wg sync.WaitGroup
@@ -143,7 +143,9 @@ func c09Stress(w *core.Worker, i int) {
 				res := core.RunProc(core.ProcOpts{Dir: d, Args: csvqArgs("-q", "-f", "CSV", "--without-header", "--wait-timeout", wt, prog), Env: env, Prefix: prefix, Timeout: 120 * time.Second})
 				op.ret = time.Since(t0).Nanoseconds()
 				op.code, op.out = res.Code, strings.TrimSpace(res.Stdout)
-				if res.Code != 0 && res.Code != 8 {
+				if res.KilledFromOutside() {
+					atomic.AddInt64(&killedOutside, 1)
+				} else if res.Code != 0 && res.Code != 8 {
 					w.Violation("stress:unexpected-exit", fmt.Sprintf("%s ended with %s", prog, res), c09Replay{Kind: "stress", Detail: prog})
 				}
 				mu.Lock()
@@ -154,6 +156,11 @@ func c09Stress(w *core.Worker, i int) {
 	}
 	wg.Wait()
 	w.Count("stress_transactions_with_delayed_syscalls", atomic.LoadInt64(&stracedOps))
+	if n := atomic.LoadInt64(&killedOutside); n > 0 {
+		// a transaction ended by a foreign SIGKILL may or may not have committed: the round's history says nothing
+		w.Inconclusive(fmt.Sprintf("%d processes of the stress round were ended by a signal from outside the case", n))
+		return
+	}
 	// final state
 	fin := core.RunProc(core.ProcOpts{Dir: d, Args: csvqArgs("-q", "-f", "CSV", "--without-header", "SELECT n, m FROM counter; SELECT c, s FROM log;")})
 	lines := strings.Split(strings.TrimSpace(fin.Stdout), "\n")
@@ -515,6 +522,11 @@ func runSchedule(w *core.Worker, scen []string, choose func(dec int, enabled []i
 		}
 	}
 	// end-of-run checks
+	for _, ro := range roles {
+		if ro.code == -1 {
+			return sig, violations, switches, false // ended by a signal nobody in this schedule sends: says nothing about csvq
+		}
+	}
 	committed := 0
 	for _, ro := range roles {
 		if ro.code != 0 {
@@ -703,6 +715,10 @@ func c09Creators(w *core.Worker, i int) {
 		o := <-outs
 		desc := fmt.Sprintf("creator A held at %q, creator B (started 150 ms later) held at %q; exits %d and %d", o.pr.pa, o.pr.pb, o.ra.Code, o.rb.Code)
 		rep := c09Replay{Kind: "creators", Detail: desc + "; VERIF_DELAY=" + o.pr.pa + "=500 / " + o.pr.pb + "=700; program: " + prog("A|B")}
+		if o.ra.KilledFromOutside() || o.rb.KilledFromOutside() {
+			w.Inconclusive("a creator was ended by a signal from outside the case")
+			continue
+		}
 		winners := ""
 		if o.ra.Code == 0 {
 			winners += "A"
@@ -748,7 +764,7 @@ func c09WithClause(w *core.Worker, i int) {
 		"WITH w AS (SELECT n + 1 AS m FROM counter) UPDATE counter SET n = w.m FROM counter CROSS JOIN w;",
 	}
 	form := forms[(i/15)%len(forms)]
-	var committed int64
+	var committed, killed int64
 	var wg sync.WaitGroup
 	for c := 0; c < 6; c++ {
 		wg.Add(1)
@@ -756,7 +772,9 @@ func c09WithClause(w *core.Worker, i int) {
 			defer wg.Done()
 			for k := 0; k < 5; k++ {
 				res := core.RunProc(core.ProcOpts{Dir: d, Args: csvqArgs("-q", "--wait-timeout", "30", form), Timeout: 120 * time.Second})
-				if res.Code == 0 {
+				if res.KilledFromOutside() {
+					atomic.AddInt64(&killed, 1)
+				} else if res.Code == 0 {
 					atomic.AddInt64(&committed, 1)
 				} else if res.Code != 8 {
 					w.Violation("with-clause:unexpected-exit", fmt.Sprintf("%s ended with %s", form, res), c09Replay{Kind: "with-clause", Detail: form})
@@ -765,6 +783,10 @@ func c09WithClause(w *core.Worker, i int) {
 		}()
 	}
 	wg.Wait()
+	if killed > 0 {
+		w.Inconclusive("a process of the WITH-clause probe was ended by a signal from outside the case")
+		return
+	}
 	b, _ := os.ReadFile(filepath.Join(d, "counter.csv"))
 	got := -1
 	fmt.Sscanf(string(b), "id,n\n1,%d\n", &got)
